@@ -82,6 +82,8 @@ def one_run(d, wild, shared, forced, threads1, nofork, prior, stop, how, kill=No
     args = [wild, f"{d}/{variant}.o", "-o", out, f"--defsym=absval={defsym:#x}"]
     if shared:
         args.append("-shared")
+        if variant == "undef":
+            args += ["-z", "defs"]          # an undefined symbol is an error in a shared object only on request
     if forced == 1:
         args.append("--update-in-place")
     elif forced == 2:
